@@ -18,7 +18,16 @@ def leaves(t):
 def same_sum(a, b):
     if a is None or b is None:
         return a is b
-    return sorted(map(repr, leaves(a))) == sorted(map(repr, leaves(b)))
+    return sorted(map(repr, leaves(a))) == sorted(map(repr, leaves(b))) or P.linear(a) == P.linear(b)
+
+
+def window_args(bufarg, sizearg, BUF, SIZE, W):
+    """the nested call receives buffer + W and buffer_size - W for the running total W - however the two are spelled (a
+    cursor pointer advanced step by step and a remaining-room counter decremented step by step are the same thing)"""
+    if W is None:
+        return bufarg == BUF, sizearg == SIZE
+    lw = P.linear(W)
+    return P.linear_diff(bufarg, BUF) == lw, P.linear_diff(SIZE, sizearg) == lw
 
 
 def positive(st, r):
@@ -39,6 +48,10 @@ def run(ctx, chk):
                        "for the allocation, the serialization and the reported size.")
     chk.rule("C07.guard", "primitive encoders: every store to buffer[i] only where buffer_size >= i+1; returned constant = bytes "
                           "written; a path returning 0 leaves the buffer untouched and is taken only when the buffer is too small")
+    chk.rule("C07.window-writes", "second opinion by a different engine: every store through a (buffer, buffer_size) parameter pair, and every "
+             "such pair handed on to a nested encoder, stays inside the window on every path (forward dataflow, lib/window.py)")
+    import rules as _rw
+    _rw.check_window(chk, "C07.window-writes", prog, {"w"}, 60, "verif_ctl_window_write")
     chk.rule("C07.window", "composite serializers pass buffer + w / buffer_size - w with the same running total w, which only "
                            "accumulates callee results; the value returned is that total")
     chk.rule("C07.zero", "a nested result of 0 makes the serializer return 0 before the result is used")
@@ -86,9 +99,7 @@ def run(ctx, chk):
                     gn = [p["name"] for p in g.params]
                     gb, gs = gn.index("buffer"), gn.index("buffer_size")
                     wantb = BUF if W is None else None
-                    okb = (e.args[gb] == BUF) if W is None else (e.args[gb][0] == "idx" and e.args[gb][1] == BUF and same_sum(e.args[gb][3][0], W))
-                    oks = (e.args[gs] == SIZE) if W is None else (e.args[gs][0] == "op" and e.args[gs][1] == "sub" and e.args[gs][3] == SIZE
-                                                                   and same_sum(e.args[gs][4], W))
+                    okb, oks = window_args(e.args[gb], e.args[gs], BUF, SIZE, W)
                     nwin += 1
                     chk.ob("C07.window", "%s path %d: %s gets buffer+w, size-w" % (name, k, e.callee), okb and oks, e.ins.loc(), fn=name,
                            key="%s:%s:%d" % (name, e.callee, e.ins.line),
@@ -135,7 +146,7 @@ def run(ctx, chk):
                            detail="" if ok else "a 0 from %s would be swallowed (added to the total / ignored)" % e.callee,
                            path=pa.block_lines() if not ok else None)
             if pa.ret != ("c", 0):
-                ok = same_sum(pa.ret, W)
+                ok = same_sum(pa.ret, W) or (W is not None and P.linear(pa.ret) == P.linear(W))
                 chk.ob("C07.window", "%s path %d: returns the running total" % (name, k), ok, where, fn=name, key="%s:ret:%d" % (name, k),
                        detail="" if ok else "returns %s, total is %s" % (DR.fmt_term(pa.ret), DR.fmt_term(W) if W else 0))
     chk.floor("C07.window", "nested serializer/encoder calls", nwin, 60)
@@ -186,17 +197,8 @@ def run(ctx, chk):
     chk.exhaustive = True
 
 
-def check_size(chk, prog, eff, cache, H=None):
-    import typestate as _ts
-    PA_ = _ts.PredAlgebra(prog)
-    CS_ = _ts.CallSites(prog, eff, cache, {}, PA_)
-    CS_H = _ts.CallSites(prog, eff, cache, H or {}, PA_)
-    import serializer_rules as SR_
-    f, _size_names = SR_.size_core(prog, eff, cache)
-    where = "%s:%d" % (f.file, f.line)
-    T = prog.enum("cbor_type")
-    IW = prog.enum("cbor_int_width")
-    FW = prog.enum("cbor_float_width")
+def check_header_partition(chk, rule, prog, cache):
+    """_cbor_encoded_header_size partitions all 2^64 values exactly like the shortest-form selector of the encoders"""
     # header size partition vs shortest-form classes
     h = prog.fn("_cbor_encoded_header_size")
     cls = ER.classes("shortest", None, (1 << 64) - 1)
@@ -208,7 +210,7 @@ def check_size(chk, prog, eff, cache, H=None):
         want = (1 if match[0][3] else 1 + match[0][2]) if match else None
         ok = bool(match) and pa.ret == ("c", want)
         covered.append((lo, hi))
-        chk.ob("C07.size-header", "values [%d, %d] -> %s byte head" % (lo, hi, want), ok, "%s:%d" % (h.file, h.line), fn=h.name,
+        chk.ob(rule, "values [%d, %d] -> %s byte head" % (lo, hi, want), ok, "%s:%d" % (h.file, h.line), fn=h.name,
                key="hdr:%d" % lo, detail="" if ok else "returns %r; the selector emits %s bytes (classes %s)" % (pa.ret, want, [(a, b) for a, b, _, _ in cls]))
     covered.sort()
     pos = 0
@@ -216,8 +218,22 @@ def check_size(chk, prog, eff, cache, H=None):
         if lo > pos:
             break
         pos = max(pos, hi + 1)
-    chk.ob("C07.size-header", "partition covers all 2^64 values", pos > (1 << 64) - 1, "%s:%d" % (h.file, h.line), fn=h.name, key="hdr:cover")
-    chk.floor("C07.size-header", "partition cells", len(covered), 5)
+    chk.ob(rule, "partition covers all 2^64 values", pos > (1 << 64) - 1, "%s:%d" % (h.file, h.line), fn=h.name, key="hdr:cover")
+    chk.floor(rule, "partition cells", len(covered), 5)
+
+
+def check_size(chk, prog, eff, cache, H=None):
+    import typestate as _ts
+    PA_ = _ts.PredAlgebra(prog)
+    CS_ = _ts.CallSites(prog, eff, cache, {}, PA_)
+    CS_H = _ts.CallSites(prog, eff, cache, H or {}, PA_)
+    import serializer_rules as SR_
+    f, _size_names = SR_.size_core(prog, eff, cache)
+    where = "%s:%d" % (f.file, f.line)
+    T = prog.enum("cbor_type")
+    IW = prog.enum("cbor_int_width")
+    FW = prog.enum("cbor_float_width")
+    check_header_partition(chk, "C07.size-header", prog, cache)
 
     # expected leaf lengths from the encoder tables: width -> bytes
     nleaf = 0
